@@ -473,6 +473,32 @@ func metricCorpus() []metricBatch {
 		PositiveBucket: metricdata.ExponentialBucket{Offset: -2, Counts: []uint64{1, 0, 2}}, NegativeBucket: metricdata.ExponentialBucket{Offset: 4, Counts: []uint64{1}}}}}})
 	zb.zeroThr = true
 	out = append(out, zb)
+	// large collections: 130 data points, 130 attributes on a point, 130 exemplars, 130 buckets, 130 quantiles, 130 metrics
+	bigSet := attribute.NewSet(manyAttrs(130)...)
+	var dps []metricdata.DataPoint[int64]
+	var exs []metricdata.Exemplar[float64]
+	var bounds []float64
+	var counts []uint64
+	var qs []metricdata.QuantileValue
+	var many []metricdata.Metrics
+	for i := 0; i < 130; i++ {
+		dps = append(dps, metricdata.DataPoint[int64]{Attributes: attribute.NewSet(attribute.Int("i", i)), Time: t1, Value: int64(i)})
+		exs = append(exs, metricdata.Exemplar[float64]{Time: t1, Value: float64(i)})
+		bounds = append(bounds, float64(i))
+		counts = append(counts, uint64(i))
+		qs = append(qs, metricdata.QuantileValue{Quantile: float64(i) / 130, Value: float64(i)})
+		many = append(many, metricdata.Metrics{Name: fmt.Sprintf("m%03d", i), Data: metricdata.Gauge[int64]{DataPoints: []metricdata.DataPoint[int64]{{Time: t1, Value: int64(i)}}}})
+	}
+	out = append(out, mk(
+		metricdata.Metrics{Name: "many.points", Data: metricdata.Sum[int64]{Temporality: metricdata.DeltaTemporality, DataPoints: dps}},
+		metricdata.Metrics{Name: "many.attrs", Data: metricdata.Gauge[float64]{DataPoints: []metricdata.DataPoint[float64]{{Attributes: bigSet, Time: t1, Value: 1, Exemplars: exs}}}},
+		metricdata.Metrics{Name: "many.buckets", Data: metricdata.Histogram[float64]{Temporality: metricdata.CumulativeTemporality, DataPoints: []metricdata.HistogramDataPoint[float64]{{
+			Attributes: set, StartTime: t0, Time: t1, Count: 9, Bounds: bounds, BucketCounts: append(counts, 7), Sum: 1}}}},
+		metricdata.Metrics{Name: "many.expo", Data: metricdata.ExponentialHistogram[int64]{Temporality: metricdata.DeltaTemporality, DataPoints: []metricdata.ExponentialHistogramDataPoint[int64]{{
+			Attributes: set, StartTime: t0, Time: t1, Count: 9, Sum: 4, PositiveBucket: metricdata.ExponentialBucket{Offset: 1, Counts: counts}, NegativeBucket: metricdata.ExponentialBucket{Offset: -1, Counts: counts}}}}},
+		metricdata.Metrics{Name: "many.quantiles", Data: metricdata.Summary{DataPoints: []metricdata.SummaryDataPoint{{Attributes: set, StartTime: t0, Time: t1, Count: 1, Sum: 1, QuantileValues: qs}}}},
+	))
+	out = append(out, mk(many...))
 	// no aggregation / no resource / no scopes: exporter-level paths
 	nb := mk(metricdata.Metrics{Name: "nodata"}, metricdata.Metrics{Name: "g", Data: metricdata.Gauge[int64]{DataPoints: []metricdata.DataPoint[int64]{{Attributes: set, Time: t1, Value: 3}}}})
 	nb.rm.Resource = nil
